@@ -30,6 +30,7 @@ def make(case):
         return None
     n = case["nbytes"]
     eof = has_eof(T)
+    has_leb = H.has_kind(T, ("leb",))
 
     def run(ctx):
         data = ctx.bytes("b", n)
@@ -40,7 +41,7 @@ def make(case):
             return
         v0, e0 = base[1], s0.tell()
         ctx.observe("extent", e0)
-        if not eof:
+        if not eof and not has_leb:   # a non-canonical LEB128 input is re-encoded minimally (C02 states that domain)
             try:
                 ctx.check("the stream is left at the start plus the encoded size (len(dumps))", e0 == len(v0.dumps()), f"{e0}")
             except Exception as e:  # noqa: BLE001
